@@ -43,6 +43,17 @@ func main() {
 	if d := os.Getenv("VERIF_DIR"); d != "" {
 		verifDir = d
 	}
+	if at := os.Getenv("GOSX_MEMPROF_AT"); at != "" { // debugging aid: heap profile after N seconds
+		if secs, err := strconv.Atoi(at); err == nil {
+			go func() {
+				time.Sleep(time.Duration(secs) * time.Second)
+				runtime.GC()
+				f, _ := os.Create("/tmp/gosx_heap_at.out")
+				pprof.WriteHeapProfile(f)
+				f.Close()
+			}()
+		}
+	}
 	switch os.Args[1] {
 	case "run":
 		if pf := os.Getenv("GOSX_PROF"); pf != "" {
